@@ -12,7 +12,7 @@ use tree_sitter::{Parser, Range};
 
 pub struct C02;
 
-pub const LANGS: &[&str] = &["mini", "arith", "json", "glr", "indent", "heredoc", "tmpl"];
+pub const LANGS: &[&str] = &["mini", "arith", "json", "glr", "indent", "heredoc", "tmpl", "alias"];
 
 pub fn pick_lang(t: &mut Tape, langs: &[&'static str], weights: &[u32]) -> &'static str {
     langs[t.weighted(weights)]
@@ -55,7 +55,7 @@ impl Check for C02 {
         vec![("tree:erroneous", 0.30), ("tree:missing", 0.03), ("text:invalid_utf8", 0.05), ("text:crlf", 0.04), ("tree:depth>500", 0.003), ("tree:nodes>10000", 0.003), ("with_edits", 0.15), ("with_ranges", 0.05)]
     }
     fn run_case(&self, ctx: &mut Ctx, t: &mut Tape) {
-        let lname = pick_lang(t, LANGS, &[30, 15, 12, 10, 12, 10, 11]);
+        let lname = pick_lang(t, LANGS, &[28, 13, 11, 10, 11, 9, 10, 8]);
         let lang = lang::zoo(lname);
         let class = doc::gen_class(t, &[34, 28, 12, 14, 2, 10]);
         let bytes = doc::gen_doc(lang, class, t);
